@@ -62,6 +62,7 @@ type nFunc struct {
 	Variadic bool     `json:"v,omitempty"`
 	Generic  bool     `json:"g,omitempty"`
 	Dup      bool     `json:"d,omitempty"`
+	Ord      int      `json:"o,omitempty"` // declaration order within the scan (files in path order)
 }
 
 type nField struct {
@@ -79,6 +80,7 @@ type nDecl struct {
 	Kind string `json:"c"` // var, const, type
 	Typ  string `json:"t,omitempty"`
 	Val  string `json:"v,omitempty"`
+	Ord  int    `json:"o,omitempty"`
 }
 
 type nameDB struct {
@@ -209,26 +211,109 @@ func sigOf(fset *token.FileSet, relDir string, fd *ast.FuncDecl) nFunc {
 	body := ""
 	if fd.Body != nil {
 		// x.f(a) and f(x, a) are one form (a method turned into a function, or back)
+		methodCall := map[*ast.Ident]bool{}
 		ast.Inspect(fd.Body, func(n ast.Node) bool {
 			if call, ok := n.(*ast.CallExpr); ok {
-				if sel, ok := call.Fun.(*ast.SelectorExpr); ok && !keepIdent(sel.Sel.Name) {
+				if sel, ok := call.Fun.(*ast.SelectorExpr); ok && !token.IsExported(sel.Sel.Name) {
+					methodCall[sel.Sel] = true
 					call.Fun = sel.Sel
 					call.Args = append([]ast.Expr{sel.X}, call.Args...)
 				}
 			}
 			return true
 		})
+		// names declared inside the function (a called one of these is a closure variable, not a function)
+		local := map[string]bool{}
+		for _, p := range params {
+			local[p.name] = true
+		}
+		if recv != nil {
+			local[recv.name] = true
+		}
+		ast.Inspect(fd.Body, func(n ast.Node) bool {
+			switch x := n.(type) {
+			case *ast.AssignStmt:
+				if x.Tok == token.DEFINE {
+					for _, l := range x.Lhs {
+						if id, ok := l.(*ast.Ident); ok {
+							local[id.Name] = true
+						}
+					}
+				}
+			case *ast.ValueSpec:
+				for _, id := range x.Names {
+					local[id.Name] = true
+				}
+			case *ast.RangeStmt:
+				if x.Tok == token.DEFINE {
+					for _, l := range []ast.Expr{x.Key, x.Value} {
+						if id, ok := l.(*ast.Ident); ok {
+							local[id.Name] = true
+						}
+					}
+				}
+			case *ast.FuncLit:
+				if x.Type.Params != nil {
+					for _, f := range x.Type.Params.List {
+						for _, id := range f.Names {
+							local[id.Name] = true
+						}
+					}
+				}
+			}
+			return true
+		})
+		// three name spaces, so that a local and a field (or a function) that happen to share a name in
+		// one of the trees do not tie the numbering together: plain identifiers, selected names and
+		// struct-literal keys, called names
+		selNS, callNS := map[*ast.Ident]bool{}, map[*ast.Ident]bool{}
+		ast.Inspect(fd.Body, func(n ast.Node) bool {
+			switch x := n.(type) {
+			case *ast.SelectorExpr:
+				selNS[x.Sel] = true
+			case *ast.CallExpr:
+				if id, ok := x.Fun.(*ast.Ident); ok {
+					callNS[id] = true
+				}
+			case *ast.CompositeLit:
+				for _, e := range x.Elts {
+					if kv, ok := e.(*ast.KeyValueExpr); ok {
+						if id, ok := kv.Key.(*ast.Ident); ok {
+							selNS[id] = true
+						}
+					}
+				}
+			}
+			return true
+		})
+		numSel, numCall := map[string]int{}, map[string]int{}
 		ast.Inspect(fd.Body, func(n ast.Node) bool {
 			id, ok := n.(*ast.Ident)
-			if !ok || keepIdent(id.Name) {
+			if !ok {
 				return true
 			}
-			k, seen := num[id.Name]
-			if !seen {
-				k = len(num)
-				num[id.Name] = k
+			// a selected or method-called name is never a builtin, whatever it is called (c.close, x.len)
+			if token.IsExported(id.Name) || id.Name == "_" || (keepIdent(id.Name) && !methodCall[id] && !selNS[id]) {
+				return true
 			}
-			id.Name = fmt.Sprintf("ν%d", k)
+			tab, pre := num, "ν"
+			switch {
+			case methodCall[id]:
+				tab, pre = numCall, "φ"
+			case callNS[id]:
+				// a called local (a closure variable, a parameter of function type) stays a plain name
+				if !local[id.Name] {
+					tab, pre = numCall, "φ"
+				}
+			case selNS[id]:
+				tab, pre = numSel, "σ"
+			}
+			k, seen := tab[id.Name]
+			if !seen {
+				k = len(tab)
+				tab[id.Name] = k
+			}
+			id.Name = fmt.Sprintf("%s%d", pre, k)
 			return true
 		})
 		var buf bytes.Buffer
@@ -259,6 +344,7 @@ func sigOf(fset *token.FileSet, relDir string, fd *ast.FuncDecl) nFunc {
 func scanNames(root, sub string, overlay map[string][]byte) (*nameDB, error) {
 	db := &nameDB{}
 	seen := map[string]int{}
+	ord := 0
 	err := filepath.Walk(filepath.Join(root, sub), func(p string, fi os.FileInfo, err error) error {
 		if err != nil {
 			return err
@@ -292,12 +378,15 @@ func scanNames(root, sub string, overlay map[string][]byte) (*nameDB, error) {
 					continue
 				}
 				seen[s.Key] = len(db.Funcs)
+				ord++
+				s.Ord = ord
 				db.Funcs = append(db.Funcs, s)
 			case *ast.GenDecl:
 				for si, sp := range x.Specs {
 					switch y := sp.(type) {
 					case *ast.TypeSpec:
-						db.Decls = append(db.Decls, nDecl{Key: dir + "|" + y.Name.Name, Kind: "type", Typ: squeeze(normType(y.Type))})
+						ord++
+						db.Decls = append(db.Decls, nDecl{Key: dir + "|" + y.Name.Name, Kind: "type", Typ: squeeze(normType(y.Type)), Ord: ord})
 						if st, ok := y.Type.(*ast.StructType); ok {
 							ns := nStruct{Key: dir + "|" + y.Name.Name}
 							for _, fl := range st.Fields.List {
@@ -309,6 +398,18 @@ func scanNames(root, sub string, overlay map[string][]byte) (*nameDB, error) {
 								}
 							}
 							db.Structs = append(db.Structs, ns)
+						}
+						if it, ok := y.Type.(*ast.InterfaceType); ok && it.Methods != nil {
+							// the methods of an interface are recorded like fields
+							ns := nStruct{Key: dir + "|" + y.Name.Name}
+							for _, fl := range it.Methods.List {
+								for _, n := range fl.Names {
+									ns.Fields = append(ns.Fields, nField{n.Name, normType(fl.Type)})
+								}
+							}
+							if len(ns.Fields) > 0 {
+								db.Structs = append(db.Structs, ns)
+							}
 						}
 					case *ast.ValueSpec:
 						kind := "var"
@@ -322,7 +423,8 @@ func scanNames(root, sub string, overlay map[string][]byte) (*nameDB, error) {
 							} else if kind == "const" {
 								val = fmt.Sprintf("#%d", si) // implicit repetition: position in the group
 							}
-							db.Decls = append(db.Decls, nDecl{Key: dir + "|" + n.Name, Kind: kind, Typ: normType(y.Type), Val: val})
+							ord++
+							db.Decls = append(db.Decls, nDecl{Key: dir + "|" + n.Name, Kind: kind, Typ: normType(y.Type), Val: val, Ord: ord})
 						}
 					}
 				}
@@ -495,19 +597,32 @@ func planRenames(base, cur *nameDB) *renamePlan {
 	typeRen := map[string]string{} // dir|current type -> pinned type name
 	for s, ms := range missing {
 		fs := fresh[s]
-		if len(ms) != 1 || len(fs) != 1 {
+		// several declarations of one shape (`var a, b sync.Once`): paired in declaration order when
+		// none of them is exported and as many appeared as disappeared
+		if len(ms) != len(fs) || len(ms) == 0 {
 			continue
 		}
-		_, bn, _ := strings.Cut(ms[0].Key, "|")
-		_, cn, _ := strings.Cut(fs[0].Key, "|")
-		if token.IsExported(bn) || token.IsExported(cn) {
+		sort.Slice(ms, func(i, j int) bool { return ms[i].Ord < ms[j].Ord })
+		sort.Slice(fs, func(i, j int) bool { return fs[i].Ord < fs[j].Ord })
+		okAll := true
+		for i := range ms {
+			_, bn, _ := strings.Cut(ms[i].Key, "|")
+			_, cn, _ := strings.Cut(fs[i].Key, "|")
+			if token.IsExported(bn) || token.IsExported(cn) {
+				okAll = false
+			}
+		}
+		if !okAll {
 			continue
 		}
-		pl.decls[fs[0].Key] = bn
-		if ms[0].Kind == "type" {
-			typeRen[fs[0].Key] = bn
+		for i := range ms {
+			_, bn, _ := strings.Cut(ms[i].Key, "|")
+			pl.decls[fs[i].Key] = bn
+			if ms[i].Kind == "type" {
+				typeRen[fs[i].Key] = bn
+			}
+			pl.notes = append(pl.notes, fmt.Sprintf("%s %s is analysed under its pinned name %s", ms[i].Kind, strings.Replace(fs[i].Key, "|", ".", 1), bn))
 		}
-		pl.notes = append(pl.notes, fmt.Sprintf("%s %s is analysed under its pinned name %s", ms[0].Kind, strings.Replace(fs[0].Key, "|", ".", 1), bn))
 	}
 	pinnedType := func(dir, t string) string {
 		if n, ok := typeRen[dir+"|"+t]; ok {
@@ -595,18 +710,20 @@ func planRenames(base, cur *nameDB) *renamePlan {
 	for _, f := range cur.Funcs {
 		cf[pinnedKey(f.Key)] = f
 	}
-	byHashM, byHashF := map[string][]nFunc{}, map[string][]nFunc{}
+	type cand struct {
+		pk string // key with the receiver type under its pinned name
+		f  nFunc
+	}
+	var missF, freshF []cand
 	for k, f := range bf {
 		if _, ok := cf[k]; !ok && !f.Dup && !f.Generic {
-			h := dirOfKey(k) + "|" + f.Hash
-			byHashM[h] = append(byHashM[h], f)
+			missF = append(missF, cand{k, f})
 		}
 	}
 	for k, f := range cf {
 		if b, ok := bf[k]; !ok {
 			if !f.Dup && !f.Generic {
-				h := dirOfKey(k) + "|" + f.Hash
-				byHashF[h] = append(byHashF[h], f)
+				freshF = append(freshF, cand{k, f})
 			}
 		} else if b.Hash == f.Hash && !f.Dup && !b.Dup && !f.Generic {
 			// same name, same body: parameters in another order?
@@ -620,24 +737,68 @@ func planRenames(base, cur *nameDB) *renamePlan {
 			}
 		}
 	}
-	for h, ms := range byHashM {
-		fs := byHashF[h]
-		if len(ms) != 1 || len(fs) != 1 {
-			continue
+	sort.Slice(missF, func(i, j int) bool { return missF[i].pk < missF[j].pk })
+	sort.Slice(freshF, func(i, j int) bool { return freshF[i].pk < freshF[j].pk })
+	doneM, doneF := map[string]bool{}, map[string]bool{}
+	// first among the methods of the same type (and among plain functions), then across
+	for pass := 0; pass < 2; pass++ {
+		group := func(c cand) string {
+			dir, recv, _ := splitFuncKey(c.pk)
+			if pass == 0 {
+				return dir + "|" + recv + "|" + c.f.Hash
+			}
+			return dir + "|" + c.f.Hash
 		}
-		b, c := ms[0], fs[0]
-		_, _, bn := splitFuncKey(b.Key)
-		_, _, cn := splitFuncKey(c.Key)
-		if token.IsExported(bn) || token.IsExported(cn) || bn == "init" || bn == "main" || cn == "init" || cn == "main" {
-			continue
+		byM, byF := map[string][]cand{}, map[string][]cand{}
+		for _, m := range missF {
+			if !doneM[m.pk] {
+				byM[group(m)] = append(byM[group(m)], m)
+			}
 		}
-		x := matchParams(b, c)
-		if x == nil {
-			continue
+		for _, f := range freshF {
+			if !doneF[f.pk] {
+				byF[group(f)] = append(byF[group(f)], f)
+			}
 		}
-		x.curKey, x.baseKey, x.baseName = c.Key, b.Key, bn
-		pl.funcs[c.Key] = x
-		pl.notes = append(pl.notes, fmt.Sprintf("function %s is analysed as %s of the pinned tree (same body up to renaming)", strings.ReplaceAll(c.Key, "|", " "), strings.ReplaceAll(b.Key, "|", " ")))
+		var hs []string
+		for h := range byM {
+			hs = append(hs, h)
+		}
+		sort.Strings(hs)
+		for _, h := range hs {
+			ms, fs := byM[h], byF[h]
+			// functions with one and the same body: paired in declaration order when as many appeared as disappeared
+			if len(ms) != len(fs) || len(ms) == 0 {
+				continue
+			}
+			sort.Slice(ms, func(i, j int) bool { return ms[i].f.Ord < ms[j].f.Ord })
+			sort.Slice(fs, func(i, j int) bool { return fs[i].f.Ord < fs[j].f.Ord })
+			var xs []*funcXform
+			for i := range ms {
+				b, c := ms[i].f, fs[i].f
+				_, _, bn := splitFuncKey(b.Key)
+				_, _, cn := splitFuncKey(c.Key)
+				if token.IsExported(bn) || token.IsExported(cn) || bn == "init" || bn == "main" || cn == "init" || cn == "main" {
+					xs = nil
+					break
+				}
+				x := matchParams(b, c)
+				if x == nil {
+					xs = nil
+					break
+				}
+				x.curKey, x.baseKey, x.baseName = c.Key, b.Key, bn
+				xs = append(xs, x)
+			}
+			if len(xs) != len(ms) {
+				continue
+			}
+			for i, x := range xs {
+				doneM[ms[i].pk], doneF[fs[i].pk] = true, true
+				pl.funcs[x.curKey] = x
+				pl.notes = append(pl.notes, fmt.Sprintf("function %s is analysed as %s of the pinned tree (same body up to renaming)", strings.ReplaceAll(x.curKey, "|", " "), strings.ReplaceAll(x.baseKey, "|", " ")))
+			}
+		}
 	}
 	// a method that became a plain function of the same name (or back is not handled) with an edited body
 	for k, b := range bf {
@@ -947,8 +1108,15 @@ func buildNameOverlay(dir, root string, pl *renamePlan, patterns ...string) (ov 
 								}
 							}
 							if fr := pl.fields[d+"|"+y.Name.Name]; fr != nil {
+								var lists []*ast.Field
 								if st, ok := y.Type.(*ast.StructType); ok {
-									for _, fl := range st.Fields.List {
+									lists = st.Fields.List
+								}
+								if it, ok := y.Type.(*ast.InterfaceType); ok && it.Methods != nil {
+									lists = it.Methods.List
+								}
+								if lists != nil {
+									for _, fl := range lists {
 										for _, n := range fl.Names {
 											if bn, ok := fr[n.Name]; ok {
 												if obj := p.TypesInfo.Defs[n]; obj != nil {
